@@ -429,7 +429,7 @@ pub fn c13_rates(reg: &Registry, cfg: &Cfg, out: &mut Out) {
                 for j in 0..nn {
                     let ta = base[1 + (salt * 7 + j) % (base.len() - 1)];
                     // per-multiples that are not powers of ten, and one
-                    let pms = [small_int(1), small_int(100), from_parts_dec(false, 25, -1), small_int(7), small_int(3600)];
+                    let pms = [small_int(1), from_parts_dec(false, 10, -1), small_int(100), from_parts_dec(false, 25, -1), small_int(7), small_int(3600)];
                     let pm = pms[(salt + j) % pms.len()];
                     for kind in ["new", "vals", "recip", "fmt"] {
                         out.ev("Rate", (rp.f)(kind, ta, tu, pm, pu, zero(), 0));
@@ -523,15 +523,22 @@ pub fn spec_grid(rng: &mut Rng, thorough: bool, salt: usize) -> Vec<Spec> {
                 if !thorough && (i + salt) % 3 != 0 {
                     continue;
                 }
-                v.push(Spec { plus, fill: fi, align: al, width: widths[i % widths.len()], prec: precs[(i / 2) % precs.len()] });
+                v.push(Spec { plus, zero: false, fill: fi, align: al, width: widths[i % widths.len()], prec: precs[(i / 2) % precs.len()] });
             }
         }
     }
     for _ in 0..(if thorough { 6 } else { 2 }) {
         let al = *rng.pick(&ALIGNS);
-        v.push(Spec { plus: rng.coin(), fill: if al.is_some() { *rng.pick(&FILLS) } else { None }, align: al, width: *rng.pick(&widths), prec: *rng.pick(&precs) });
+        v.push(Spec { plus: rng.coin(), zero: false, fill: if al.is_some() { *rng.pick(&FILLS) } else { None }, align: al, width: *rng.pick(&widths), prec: *rng.pick(&precs) });
     }
-    v.push(Spec { plus: false, fill: None, align: None, width: None, prec: None });
+    v.push(Spec { plus: false, zero: false, fill: None, align: None, width: None, prec: None });
+    // the 0 flag: sign first, then zeros up to the width
+    for plus in [false, true] {
+        v.push(Spec { plus, zero: true, fill: None, align: None, width: widths[(salt + 3) % widths.len()], prec: precs[salt % precs.len()] });
+        if thorough {
+            v.push(Spec { plus, zero: true, fill: None, align: None, width: Some(14), prec: None });
+        }
+    }
     v
 }
 
@@ -576,7 +583,7 @@ pub fn c15_format(reg: &Registry, cfg: &Cfg, out: &mut Out) {
         for tu in 0..tt.n_units() {
             for pu in 0..pt.n_units() {
                 salt += 1;
-                for pm in [one(), small_int(100), from_parts_dec(false, 25, -1)] {
+                for pm in [one(), small_int(100), from_parts_dec(false, 25, -1), from_parts_dec(false, 10, -1), from_parts_dec(false, 1000, -3)] {
                     let ta = amounts[salt % amounts.len()];
                     out.ev("Rate", (rp.f)("fmt", ta, tu, pm, pu, zero(), 0));
                 }
@@ -625,8 +632,8 @@ pub fn c18_special(reg: &Registry, cfg: &Cfg, out: &mut Out) {
         }
         v
     };
-    let sp = Spec { plus: true, fill: Some('*'), align: Some('^'), width: Some(12), prec: Some(3) };
-    let sp0 = Spec { plus: false, fill: None, align: None, width: None, prec: None };
+    let sp = Spec { plus: true, zero: false, fill: Some('*'), align: Some('^'), width: Some(12), prec: Some(3) };
+    let sp0 = Spec { plus: false, zero: false, fill: None, align: None, width: None, prec: None };
     let mut salt = cfg.seed as usize;
     for t in &reg.types {
         if t.kind() != "ref" {
@@ -678,6 +685,19 @@ pub fn c18_special(reg: &Registry, cfg: &Cfg, out: &mut Out) {
         let pt = reg.ty(rp.pq).unwrap();
         if tt.kind() != "ref" || pt.kind() != "ref" {
             continue;
+        }
+        // large amounts that carry fractional digits (every factor and the result stay inside the range)
+        for (k, (m1, m2, m3)) in [(12345678901234567u64, 98765432109876543u64, 55555555555555555u64), (10000000000000001, 10000000000000003, 99999999999999999), (31415926535897932, 27182818284590452, 14142135623730951)].iter().enumerate() {
+            let big = |m: u64| from_parts_dec(false, m, -1);
+            let (ta, pm, qa) = (big(*m1), big(*m3), big(*m2));
+            let ru = |t: &dyn QtyOps| (0..t.n_units()).find(|u| t.unit_info(*u)["is_ref"].as_bool().unwrap_or(false)).unwrap_or(0);
+            let (tu, pu) = (ru(tt), ru(pt));
+            for kind in ["rxq", "qxr"] {
+                out.ev("Rate", (rp.f)(kind, ta, tu, pm, pu, qa, pu));
+                out.ev("Rate", (rp.f)(kind, qa, tu, ta, pu, pm, (pu + k) % pt.n_units()));
+            }
+            out.ev("Rate", (rp.f)("qdr", ta, tu, pm, pu, qa, tu));
+            out.ev("Rate", (rp.f)("qdr", pm, tu, qa, pu, ta, (tu + k) % tt.n_units()));
         }
         for i in 0..specials.len() {
             let ta = specials[i];
@@ -740,4 +760,118 @@ pub fn c16_si(cfg: &Cfg, out: &mut Out) {
         let r = guard(|| SIPrefix::from_abbr(&k).map(|p| format!("{:?}", p)));
         out.ev("SI", json!({"kind": "from_abbr", "key": txt(&k), "out": oc(r.map(opt_s))}));
     }
+}
+
+// ---------------------------------------------------------------------------
+// (B) specification -> implementation: replay events produced by the TLA+ calculator machine
+
+/// exact number m*2^p*10^q (as written by TLC) -> amount; exact for the dyadic model amounts
+pub fn amt_from_x(x: &Value) -> Option<AmountT> {
+    if x["k"].as_str()? != "fin" {
+        return None;
+    }
+    let mut m: u128 = 0;
+    let limbs = x["m"].as_array()?;
+    for l in limbs.iter().rev() {
+        m = m.checked_mul(10000)?.checked_add(l.as_u64()? as u128)?;
+    }
+    let neg = x["neg"].as_bool()?;
+    let p = x["p"].as_i64()? as i32;
+    let q = x["q"].as_i64()? as i32;
+    if q != 0 || m >= (1u128 << 53) {
+        return None;
+    }
+    #[cfg(not(feature = "dec"))]
+    {
+        let v = (m as f64) * (2f64).powi(p);
+        Some(if neg { -v } else { v })
+    }
+    #[cfg(feature = "dec")]
+    {
+        let (c, nfrac) = if p >= 0 {
+            (m.checked_mul(1u128 << p)?, 0u8)
+        } else {
+            if -p > 18 {
+                return None;
+            }
+            (m.checked_mul(5u128.checked_pow((-p) as u32)?)?, (-p) as u8)
+        };
+        let c = c as i128;
+        Some(AmountT::new_raw(if neg { -c } else { c }, nfrac))
+    }
+}
+
+fn unit_idx(t: &dyn QtyOps, id: &str) -> Option<usize> {
+    (0..t.n_units()).find(|u| t.unit_id(*u) == id)
+}
+
+pub fn replay(reg: &Registry, input: &str, out: &mut Out) -> (usize, usize) {
+    let txt = std::fs::read_to_string(input).expect("read model events");
+    let (mut done, mut skipped) = (0, 0);
+    for line in txt.lines() {
+        let e: Value = match serde_json::from_str(line) {
+            Ok(v) => v,
+            Err(_) => continue,
+        };
+        let kind = e["ev"].as_str().unwrap_or("");
+        let r: Option<(Value, Value)> = (|| {
+            match kind {
+                "New" => {
+                    let t = reg.ty(e["T"].as_str()?)?;
+                    Some((t.new_(e["via"].as_str()?, amt_from_x(&e["a"])?, unit_idx(t, e["u"].as_str()?)?), json!({"out": e["out"]})))
+                }
+                "Convert" => {
+                    let t = reg.ty(e["T"].as_str()?)?;
+                    Some((t.convert(amt_from_x(&e["v"]["a"])?, unit_idx(t, e["v"]["u"].as_str()?)?, unit_idx(t, e["to"].as_str()?)?),
+                          json!({"out": e["out"], "eqv": e["eqv"]})))
+                }
+                "Cmp" => {
+                    let t = reg.ty(e["T"].as_str()?)?;
+                    Some((t.cmp(amt_from_x(&e["x"]["a"])?, unit_idx(t, e["x"]["u"].as_str()?)?, amt_from_x(&e["y"]["a"])?, unit_idx(t, e["y"]["u"].as_str()?)?),
+                          json!({"ab": e["ab"], "ba": e["ba"]})))
+                }
+                "Arith" => {
+                    let t = reg.ty(e["T"].as_str()?)?;
+                    Some((t.arith(e["op"].as_str()?, amt_from_x(&e["x"]["a"])?, unit_idx(t, e["x"]["u"].as_str()?)?, amt_from_x(&e["y"]["a"])?, unit_idx(t, e["y"]["u"].as_str()?)?),
+                          json!({"out": e["out"]})))
+                }
+                "Scalar" => {
+                    let t = reg.ty(e["T"].as_str()?)?;
+                    Some((t.scalar(e["op"].as_str()?, amt_from_x(&e["q"]["a"])?, unit_idx(t, e["q"]["u"].as_str()?)?, amt_from_x(&e["k"])?), json!({"out": e["out"]})))
+                }
+                "Derived" => {
+                    let (op, l, r) = (e["op"].as_str()?, e["L"].as_str()?, e["R"].as_str()?);
+                    let b = reg.binops.iter().find(|b| b.op == op && b.l == l && b.r == r)?;
+                    let (lt, rt) = (reg.ty(l)?, reg.ty(r)?);
+                    Some(((b.f)(amt_from_x(&e["x"]["a"])?, unit_idx(lt, e["x"]["u"].as_str()?)?, amt_from_x(&e["y"]["a"])?, unit_idx(rt, e["y"]["u"].as_str()?)?),
+                          json!({"out": e["out"]})))
+                }
+                "Fit" => {
+                    let t = reg.ty(e["T"].as_str()?)?;
+                    Some((t.fit(amt_from_x(&e["m"])?), json!({"out": e["out"]})))
+                }
+                "Lookup" => {
+                    let t = reg.ty(e["T"].as_str()?)?;
+                    Some((t.lookup_scale(amt_from_x(&e["key"])?), json!({"out": e["out"]})))
+                }
+                _ => None,
+            }
+        })();
+        match r {
+            Some((mut real, model)) => {
+                if real.is_null() {
+                    skipped += 1;
+                    continue;
+                }
+                real["model"] = model;
+                out.ev(kind, real);
+                done += 1;
+            }
+            None => {
+                skipped += 1;
+                eprintln!("cannot replay: {}", &line[..line.len().min(300)]);
+            }
+        }
+    }
+    (done, skipped)
 }
